@@ -632,7 +632,7 @@ impl FreeWord {
 
     //@ begin src/fpgroups/free_words.rs :: impl FreeWord :: fn inverse
     //@ rw R16 /-> Self/-> (r: Self)/
-    //@ rw R14 /^(\s*)Self::new\((.*\.map\()\|x\| (.*)\)\)$/\1let __it = \2|x: &isize| -> (y: isize) requires *x > isize::MIN ensures y == -(*x as int) { \3 });\n\1let __r = Self::new(__it);\n\1__r/
+    //@ rw R14 /^([ \t]*)Self::new\((.*\.map\()\|x\| (.*)\)\)$/\1let __it = \2|x: &isize| -> (y: isize) requires *x > isize::MIN ensures y == -(*x as int) { \3 });\n\1let __r = Self::new(__it);\n\1__r/
     pub fn inverse(&self) -> (r: Self)
         ensures r@ == inv_w(self@)
     {
@@ -666,7 +666,7 @@ impl FreeWord {
 
     //@ begin src/fpgroups/free_words.rs :: impl FreeWord :: fn commutator
     //@ rw R16 /-> Self/-> (r: Self)/
-    //@ rw R9 /^(\s*)self \* other \* /\1Mul::mul(self, other) * /
+    //@ rw R9 /^([ \t]*)self \* other \* /\1Mul::mul(self, other) * /
     pub fn commutator(&self, other: &FreeWord) -> (r: Self)
         ensures r@ == gmul(gmul(gmul(self@, other@), inv_w(self@)), inv_w(other@))
     {
@@ -747,7 +747,7 @@ impl Mul<FreeWord> for &FreeWord {
 
     //@ begin src/fpgroups/free_words.rs :: impl Mul<FreeWord> for &FreeWord :: fn mul
     //@ rw R16 /-> Self::Output/-> (r: Self::Output)/
-    //@ rw R9 /^(\s*)self \* &rhs$/\1Mul::mul(self, &rhs)/
+    //@ rw R9 /^([ \t]*)self \* &rhs$/\1Mul::mul(self, &rhs)/
     fn mul(self, rhs: FreeWord) -> (r: Self::Output)
         ensures r@ == gmul(self@, rhs@)
     {
@@ -767,7 +767,7 @@ impl Mul<&FreeWord> for FreeWord {
 
     //@ begin src/fpgroups/free_words.rs :: impl Mul<&FreeWord> for FreeWord :: fn mul
     //@ rw R16 /-> Self::Output/-> (r: Self::Output)/
-    //@ rw R9 /^(\s*)&self \* rhs$/\1Mul::mul(&self, rhs)/
+    //@ rw R9 /^([ \t]*)&self \* rhs$/\1Mul::mul(&self, rhs)/
     fn mul(self, rhs: &FreeWord) -> (r: Self::Output)
         ensures r@ == gmul(self@, rhs@)
     {
@@ -787,7 +787,7 @@ impl Mul<FreeWord> for FreeWord {
 
     //@ begin src/fpgroups/free_words.rs :: impl Mul<FreeWord> for FreeWord :: fn mul
     //@ rw R16 /-> Self::Output/-> (r: Self::Output)/
-    //@ rw R9 /^(\s*)&self \* &rhs$/\1Mul::mul(&self, &rhs)/
+    //@ rw R9 /^([ \t]*)&self \* &rhs$/\1Mul::mul(&self, &rhs)/
     fn mul(self, rhs: FreeWord) -> (r: Self::Output)
         ensures r@ == gmul(self@, rhs@)
     {
@@ -1028,8 +1028,8 @@ pub open spec fn has_view(s: Set<FreeWord>, v: Seq<isize>) -> bool { exists|u: F
 
 //@ begin src/fpgroups/free_words.rs :: - :: fn relator_permutations
 //@ rw R16 /-> BTreeSet<FreeWord>/-> (result: BTreeSet<FreeWord>)/
-//@ rw R14 /^(\s*)BTreeSet::from\(\[fw\.clone\(\)\]\)$/\1let __c = fw.clone();\n\1let __a = [__c];\n\1BTreeSet::from(__a)/
-//@ rw R14 /^(\s*)result\.insert\((.*)\);$/\1let __wi = \2;\n\1result.insert(__wi);/1
+//@ rw R14 /^([ \t]*)BTreeSet::from\(\[fw\.clone\(\)\]\)$/\1let __c = fw.clone();\n\1let __a = [__c];\n\1BTreeSet::from(__a)/
+//@ rw R14 /^([ \t]*)result\.insert\((.*)\);$/\1let __wi = \2;\n\1result.insert(__wi);/1
 pub fn relator_permutations(fw: &FreeWord) -> (result: BTreeSet<FreeWord>)
     ensures
         // every member is a candidate ...
